@@ -279,6 +279,18 @@ pub fn scenario(stream: &str, r: &mut Rng, idx: u64) -> Vec<String> {
                 }
             }
         }
+        "corrupt" => {
+            // C17: damaged block bytes of small uncompressed files (several blocks / index levels)
+            let n = r.range(1, 8) as usize;
+            let es = gen_entries(r, n);
+            let mut cfg = gen_cfg(r, &CfgOpts { all_codecs: false, deep: true, extreme_levels: false });
+            cfg = cfg.replace(&cfg[cfg.find("codec=").unwrap()..cfg.find(" level").unwrap()], "codec=0");
+            out.push(cfg);
+            out.push("wnew".into());
+            ins_lines(&mut out, &es);
+            out.push("finish".into());
+            out.push("!corrupt".into());
+        }
         "trunc" | "truncall" => {
             // every truncation length of a finished file, every single-byte corruption of its trailer
             let n = r.range(0, 6) as usize;
@@ -642,6 +654,10 @@ pub fn scenario(stream: &str, r: &mut Rng, idx: u64) -> Vec<String> {
             if stream == "sorterio" {
                 out.push(format!("sfault choppy:{}", r.next() % 100000));
             }
+            if creator == "custom" && r.chance(1, 3) {
+                // write-behind chunk storage: bytes become readable only after `flush`
+                out.push("sfault wb:1".into());
+            }
             let mf = if stable == 1 && par == 0 { *r.pick(&["concat", "concat", "sum", "bag"]) } else { *r.pick(&["sum", "bag"]) };
             out.push(format!("snew {} 0", mf));
             let budget = thr.max(minmem);
@@ -718,6 +734,25 @@ pub fn scenario(stream: &str, r: &mut Rng, idx: u64) -> Vec<String> {
         _ => {}
     }
     out
+}
+
+/// C08 / C12 under persistent chunk-storage faults (implementation-only oracles).
+pub fn faultbig_scenarios(r: &mut Rng, idx: u64, out: &mut Vec<String>) {
+    let tag = 7000 + idx;
+    // persistent fault: every write growing a chunk beyond `limit` bytes fails, so spills succeed and
+    // the larger merged chunks keep failing; the caller goes on inserting (C08 under faults, C12)
+    for (j, limit) in [700u64, 1100, 1500, 2500].iter().enumerate() {
+        for maxchunks in [1u64, 2, 3] {
+            out.push(format!("S fault-big-{}-{}-{}", idx, j, maxchunks));
+            out.push(format!("scfg thr=0 minmem=512 init=512 realloc=0 maxchunks={} stable=1 par=0 codec=0 bs=1024", maxchunks));
+            out.push(format!("sfault big:{}:{}", limit, tag));
+            out.push("snew concat 0".into());
+            for i in 0..220u32 {
+                out.push(format!("!sins {} {}", hex(&(i * 7919 % 1000).to_be_bytes()), hex(&r.bytes(20))));
+            }
+            out.push("!sfinish stream".into());
+        }
+    }
 }
 
 /// C12: one base scenario, then the same scenario with the k-th call of one component failing,
